@@ -985,6 +985,25 @@ class Interp:
                             continue
                         yield self.compare(e.ops[0], l, r, st2), env2, st2
                 return
+            if isinstance(e.ops[0], (ast.In, ast.NotIn)) and isinstance(
+                    e.comparators[0], (ast.Tuple, ast.List, ast.Set)) and \
+                    e.comparators[0].elts and not any(
+                        isinstance(x, ast.Starred)
+                        for x in e.comparators[0].elts) and isinstance(
+                            e.left, (ast.Name, ast.Attribute,
+                                     ast.Subscript)):
+                # x in (a, b): x == a or x == b (x read more than once has
+                # no effect here: a name, an attribute, a frame slice)
+                alts = [ast.copy_location(ast.Compare(
+                    e.left, [ast.Eq()], [x]), e)
+                    for x in e.comparators[0].elts]
+                both = alts[0] if len(alts) == 1 else ast.copy_location(
+                    ast.BoolOp(ast.Or(), alts), e)
+                if isinstance(e.ops[0], ast.NotIn):
+                    both = ast.copy_location(ast.UnaryOp(ast.Not(), both), e)
+                ast.fix_missing_locations(both)
+                yield from self.cond(both, env, st, ctx)
+                return
             l = self.ev1(e.left, env, st, ctx)
             r = self.ev1(e.comparators[0], env, st, ctx)
             if isinstance(e.ops[0], (ast.Is, ast.IsNot)) and type(
@@ -1152,6 +1171,15 @@ class Interp:
                         fr.w not in (16, 20, 24, 32), env, st
                     return
             raise Unsupported("attribute %s of %r" % (name, fr))
+        if isinstance(o, (str, Opaque)) and (isinstance(o, str) or o.d in (
+                "str", "fstr", "fmt")) and name in (
+                    "format", "join", "upper", "lower", "strip", "title",
+                    "capitalize", "replace", "ljust", "rjust", "center",
+                    "zfill", "lstrip", "rstrip"):
+            # text built from values: the arguments are evaluated (and may
+            # raise), the text itself is opaque
+            yield ("strmeth", name), env, st
+            return
         if isinstance(o, Registry) and name == "get":
             yield ("regget", o), env, st
             return
@@ -1220,6 +1248,19 @@ class Interp:
             yield ClsRef(node), env, st
             return
         if kind == "attr":
+            # `m = Other.m` in a class body: the member of the other class
+            # under another name (bound to the receiver like any method)
+            if isinstance(node, ast.Attribute) and isinstance(
+                    node.value, (ast.Name, ast.Attribute)):
+                try:
+                    k2 = self.world.resolve_class(owner.mod, node.value)
+                except Exception:
+                    k2 = None
+                r2 = k2.lookup(node.attr) if k2 is not None else None
+                if r2 is not None and r2[1] not in ("attr", "class"):
+                    yield from self.clsattr(k2, node.attr, recv, env, st,
+                                            ctx)
+                    return
             v = self.folder.class_attr(c, name)
             if v is UNKNOWN:
                 if isinstance(node, (ast.Dict, ast.List)) or (
@@ -1637,6 +1678,9 @@ class Interp:
                 yield v.bit_length(), env, st
                 return
             raise Unsupported("bit_length of symbolic value")
+        if isinstance(f, tuple) and f and f[0] == "strmeth":
+            yield Opaque("str"), env, st
+            return
         if isinstance(f, tuple) and f and f[0] == "mapget":
             # what the map is asked: kept for the rule that compares the
             # key with the frame's address / instance fields
